@@ -73,6 +73,7 @@ fn steps(s: &mut Src, w: &StepW, len: (usize, usize), in_future: bool, depth: us
             if in_future { w.awaitgate } else { w.blockongate },
             if in_future { w.awaitfutsync * nested } else { 0 },
             if in_future { w.awaitfutdesync * nested } else { 0 },
+            if in_future { w.selfwake } else { 0 },
         ];
         let k = s.weighted(&ws);
         let d = depth.saturating_sub(1);
@@ -93,7 +94,8 @@ fn steps(s: &mut Src, w: &StepW, len: (usize, usize), in_future: bool, depth: us
                 }
             }
             9 => Step::AwaitFutSync { o: s.u8(), body: steps(s, w, (0, 2), true, d), id: 0 },
-            _ => Step::AwaitFutDesync { o: s.u8(), body: steps(s, w, (0, 2), true, d), id: 0 },
+            10 => Step::AwaitFutDesync { o: s.u8(), body: steps(s, w, (0, 2), true, d), id: 0 },
+            _ => Step::SelfWake,
         });
     }
     out
@@ -108,10 +110,11 @@ fn op(s: &mut Src, p: &Profile, w: &OpW) -> Op {
     let pipe_body = |s: &mut Src| -> Vec<Step> {
         let n = s.range(0, 2);
         (0..n)
-            .map(|_| match s.weighted(&[4, 3, 2]) {
+            .map(|_| match s.weighted(&[4, 3, 2, 1]) {
                 0 => Step::Touch,
                 1 => Step::Yield,
-                _ => Step::AwaitGate { g: s.u8() },
+                2 => Step::AwaitGate { g: s.u8() },
+                _ => Step::SelfWake,
             })
             .collect()
     };
@@ -192,6 +195,7 @@ pub fn case_from_bytes(p: &Profile, data: &[u8]) -> Option<Case> {
         stream_always_register: s.pct(50),
         keep_going_after_early_destroy: p.keep_going_after_early_destroy,
         despawn_without_quiescence: false,
+        unwinding_drops: s.pct(15),
     };
     let ncallers = s.range(p.callers.0, p.callers.1);
     let mut callers = vec![];
@@ -256,10 +260,11 @@ pub fn case_from_bytes(p: &Profile, data: &[u8]) -> Option<Case> {
                 let at = s.range(0, phase.callers[c].len());
                 let n = s.range(0, 3);
                 let body: Vec<Step> = (0..n)
-                    .map(|_| match s.weighted(&[3, 5, 3]) {
+                    .map(|_| match s.weighted(&[3, 5, 3, 1]) {
                         0 => Step::Touch,
                         1 => Step::Yield,
-                        _ => Step::AwaitGate { g: s.u8() },
+                        2 => Step::AwaitGate { g: s.u8() },
+                        _ => Step::SelfWake,
                     })
                     .collect();
                 phase.callers[c].insert(at, Op::PipeIn { o: s.u8(), s: 0, body, id: 0 });
@@ -274,10 +279,11 @@ pub fn case_from_bytes(p: &Profile, data: &[u8]) -> Option<Case> {
                 let at = s.range(0, phase.callers[c].len());
                 let n = s.range(0, 2);
                 let body: Vec<Step> = (0..n)
-                    .map(|_| match s.weighted(&[4, 4, 3]) {
+                    .map(|_| match s.weighted(&[4, 4, 3, 1]) {
                         0 => Step::Touch,
                         1 => Step::Yield,
-                        _ => Step::AwaitGate { g: s.u8() },
+                        2 => Step::AwaitGate { g: s.u8() },
+                        _ => Step::SelfWake,
                     })
                     .collect();
                 let mut seq = vec![Op::Pipe { o: s.u8(), s: 0, depth: s.u8(), body, slot: 255, id: 0 }];
